@@ -235,6 +235,11 @@ def layered_state(st):
 
 def layered_part(ck, tier, rng):
     jobs = []
+    for neg in ("no_compl_on_freq", "no_collapse_on_strength"):
+        rn = run_tlc("LayeredTides", "LayeredTides_neg_%s.cfg" % neg, expect_violation=True, timeout=600)
+        if rn.ok or rn.violated != "C13_Fresh_Layered":
+            raise MachineryError("negative control LayeredTides/%s not rejected (violated=%s)" % (neg, rn.violated))
+        ck.notes.setdefault("negative_controls_model", {})["LayeredTides_" + neg] = [str(a).split(" line")[0] for a, _ in rn.trace]
     for sync, obl in CONFIGS:
         cfg = "LayeredTides_s%s_o%s.cfg" % (str(sync).upper(), str(obl).upper())
         r = run_tlc("LayeredTides", cfg, coverage=True, timeout=900)
